@@ -1,47 +1,46 @@
-(* C07, rtpav1 — statements only *)
+(* C07, rtpav1 — statements only (code with fix commits aec245d and ccfdafa) *)
 From GVL Require Import NList Rtp.
 From GV_av1 Require Import Model Proofs.
 Open Scope N_scope.
 
-(* The property is FALSE of the code that exists: decodeOBUs appends a start fragment (Z=0, Y=1) to
-   d.fragments without dropping what is pending.  A fragmented unit that loses its last packet
-   leaves its fragments behind; a following one-packet unit does not touch them; the next
-   fragmented unit - intact, predecessor intact - comes back with the stale bytes glued in front. *)
-Theorem C07_av1_resync_refuted : exists max f0 f1 f2 s0 s1 s2 s3 ps0 ps1 ps2,
-  3 <= max /\ max < two32 /\ valid_tu f0 /\ valid_tu f1 /\ valid_tu f2 /\
-  agree max f0 /\ agree max f1 /\ agree max f2 /\
-  enc max s0 f0 = Some (ps0, s1) /\ enc max s1 f1 = Some (ps1, s2) /\ enc max s2 f2 = Some (ps2, s3) /\
-  let d0 := fst (dec_run dinit (removelast ps0)) in
-  let d1 := fst (dec_run d0 ps1) in
-  ~ In (DFrame f2) (snd (dec_run d1 ps2)).
-Proof. exact resync_refuted. Qed.
-Print Assumptions C07_av1_resync_refuted.
-
-(* Strongest true statement: after ANY packet history [hist] (loss, duplication, reordering,
-   foreign or hostile packets), an intact unit f1 then an intact unit f2 (arbitrary sequence
-   numbers: whole units may be lost in between): f2 is returned exactly at its last packet, "more"
-   before, clean afterwards - provided no fragments are pending after [hist] or f1 takes at least
-   two packets.  Missing: the case excluded by that premise (the violation above), and the units
-   excluded by [agree] (finding F1, see C03). *)
-Theorem C07_av1_resync_partial : forall max hist f1 f2 s1 s2,
-  3 <= max -> max < two32 -> s1 < 65536 -> s2 < 65536 ->
-  valid_tu f1 -> valid_tu f2 -> agree max f1 -> agree max f2 ->
+(* After ANY packet history [hist] (loss, duplication, reordering, foreign or hostile packets), an
+   intact unit f1 then an intact unit f2 (arbitrary sequence numbers: whole units may be lost in
+   between): f2 is returned exactly at its last packet, "more" before, clean afterwards.  No side
+   condition any more: the first packet of f1 (no Z) drops whatever fragments were pending. *)
+Theorem C07_av1_resync : forall max hist f1 f2 s1 s2,
+  3 <= max -> max < two32 -> s1 < 65536 -> s2 < 65536 -> valid_tu f1 -> valid_tu f2 ->
   let d0 := fst (dec_run dinit hist) in
   exists ps1 ps2, enc max s1 f1 = Some (ps1, seq_add s1 (nlen ps1)) /\
                   enc max s2 f2 = Some (ps2, seq_add s2 (nlen ps2)) /\
-    (dfrags d0 = [] \/ 2 <= nlen ps1 ->
      let d1 := fst (dec_run d0 ps1) in
-     exists d2, dec_run d1 ps2 = (d2, repeat DMore (length ps2 - 1) ++ [DFrame f2]) /\ clean d2).
-Proof. exact resync_partial. Qed.
-Print Assumptions C07_av1_resync_partial.
+     exists d2, dec_run d1 ps2 = (d2, repeat DMore (length ps2 - 1) ++ [DFrame f2]) /\ clean d2.
+Proof. exact resync. Qed.
+Print Assumptions C07_av1_resync.
 
 (* never panics, whatever arrives *)
 Theorem C07_av1_no_panic : forall hist, ~ In DPanic (snd (dec_run dinit hist)).
 Proof. exact total. Qed.
 Print Assumptions C07_av1_no_panic.
 
-Example C07_av1_example : (* first packet of a 2-packet unit lost, then two intact 2-packet units *)
+(* regression: the decoder before commit ccfdafa violated the statement: a fragmented unit loses
+   its last packet, a one-packet unit and a fragmented unit arrive intact, the last one was returned
+   with the stale fragment glued in front *)
+Theorem C07_av1_old_decoder_refuted : exists max f0 f1 f2 s0 s1 s2 s3 ps0 ps1 ps2,
+  3 <= max /\ max < two32 /\ valid_tu f0 /\ valid_tu f1 /\ valid_tu f2 /\
+  enc max s0 f0 = Some (ps0, s1) /\ enc max s1 f1 = Some (ps1, s2) /\ enc max s2 f2 = Some (ps2, s3) /\
+  let d0 := fst (dec_run_old dinit (removelast ps0)) in
+  let d1 := fst (dec_run_old d0 ps1) in
+  ~ In (DFrame f2) (snd (dec_run_old d1 ps2)).
+Proof. exact old_decoder_resync_refuted. Qed.
+Print Assumptions C07_av1_old_decoder_refuted.
+
+Example C07_av1_example :
+  (* first packet of a 2-packet unit lost, then two intact 2-packet units *)
   option_map (fun pss => snd (dec_run dinit (tl (concat pss))))
              (enc_many 5 10 [[[1; 2; 3; 4; 5]]; [[6; 7; 8; 9; 10]]; [[11; 12; 13; 14; 15]]])
-  = Some [DErr; DMore; DFrame [[6; 7; 8; 9; 10]]; DMore; DFrame [[11; 12; 13; 14; 15]]].
-Proof. vm_compute. reflexivity. Qed.
+  = Some [DErr; DMore; DFrame [[6; 7; 8; 9; 10]]; DMore; DFrame [[11; 12; 13; 14; 15]]] /\
+  (* the former violation: last packet of a 2-packet unit lost, a 1-packet unit, a 2-packet unit *)
+  option_map (fun pss => snd (dec_run dinit (removelast (hd [] pss) ++ concat (tl pss))))
+             (enc_many 5 10 [[[7; 7; 7; 7; 7; 7]]; [[1]]; [[1; 2; 3; 4; 5; 6]]])
+  = Some [DMore; DFrame [[1]]; DMore; DFrame [[1; 2; 3; 4; 5; 6]]].
+Proof. split; vm_compute; reflexivity. Qed.
